@@ -1,6 +1,6 @@
 (** C09 — the buffered adapters never exceed their limit and keep it saturated *)
 From FB Require Import Base Syntax World SlotMap Fub Ordered Adapters Step
-  WorldProofs FubProofs UnboundedProofs AdaptersProofs StepProofs Reach.
+  WorldProofs FubProofs UnboundedProofs AdaptersProofs StepProofs Reach SaturationProofs.
 
 (** in every reachable state of every history: running <= pulled-but-unyielded <= n *)
 Theorem C09_limit_respected :
@@ -28,3 +28,15 @@ Theorem C09_fill_loop :
   /\ q_len (ad_q a) <= q_len (ad_q a') /\ up_live (ad_up a').
 Proof. exact fill_spec. Qed.
 Print Assumptions C09_fill_loop.
+
+(** work conservation: whenever a poll returns Pending, n pulled items are still unfinished or
+    undelivered, or upstream has ended (and was dropped), or upstream was polled during this call
+    and its last answer was Pending *)
+Theorem C09_pending_is_work_conserving :
+  forall (P : params), params_ok P -> forall (own : nat -> nat) (a : adapter) (t : nat) (w : world),
+  winv own None w -> ad_ok own a ->
+  let '(a', r, w') := adapter_poll P a t w in
+  r = RetPending ->
+  q_cap (ad_q a') <= q_len (ad_q a') \/ ad_up a' = None \/ last_up (log w') = Some UAPend.
+Proof. exact adapter_pending_is_work_conserving. Qed.
+Print Assumptions C09_pending_is_work_conserving.
